@@ -514,13 +514,17 @@ pub fn run(rep: &mut Rep) {
         TermAct::WriteErr,
         TermAct::Garbage,
     ];
-    rep.note(&format!("second connection: {} causes ending the first connection x 4 ways of connecting the same Context again (session resumed / resumed with Receive Maximum 2 / expired / no disconnection recorded) x {} causes on the second connection (and 'none': run() pending at quiescence, a ping and a QoS 1 publish complete) - also with a QoS 1 publish left unfinished by the first connection; then a third connection", causes.len(), causes.len()));
+    rep.note(&format!("second connection: {} causes ending the first connection x 5 ways of connecting the same Context again (session resumed / resumed with Receive Maximum 2 / expired / no disconnection recorded / resumed under a Maximum Packet Size smaller than what is re-sent) x {} causes on the second connection (and 'none': run() pending at quiescence, a ping and a QoS 1 publish complete) - also with a QoS 1 publish left unfinished by the first connection; then a third connection", causes.len(), causes.len()));
     let mut didx = 60_000_000u64;
     for (c1, cause1) in causes.iter().enumerate() {
-        for mode in 0..4u8 {
+        for mode in 0..5u8 {
             for c2 in 0..=causes.len() {
                 for unfinished in [false, true] {
                     if mode == 3 && unfinished {
+                        continue;
+                    }
+                    if mode == 4 && c2 < causes.len() && matches!(causes[c2], TermAct::WriteErr) {
+                        // (the write error is provoked by a QoS 0 publish, which the 8-byte limit of mode 4 refuses)
                         continue;
                     }
                     let id = format!("second:{c1}:{mode}:{c2}:{}", unfinished as u8);
@@ -561,11 +565,14 @@ pub fn run(rep: &mut Rep) {
                         w.settle_check();
                         w.pingresp();
                         w.settle_check();
-                        let q = w.start(1, Kind::Pub1);
-                        w.settle_check();
-                        if w.m[q].req_wire.is_some() {
-                            w.deliver_ack(q, 1, 0, 0);
+                        if mode != 4 {
+                            // (under the 8-byte Maximum Packet Size of mode 4 a new publish would rightly be refused)
+                            let q = w.start(1, Kind::Pub1);
                             w.settle_check();
+                            if w.m[q].req_wire.is_some() {
+                                w.deliver_ack(q, 1, 0, 0);
+                                w.settle_check();
+                            }
                         }
                         let _ = p;
                         if w.sim.run_result().is_some() && w.term.is_none() {
@@ -578,6 +585,7 @@ pub fn run(rep: &mut Rep) {
                             w.settle_check();
                             if can_reconnect(&w) {
                                 apply(&mut w, Act::Reconnect((mode + 1) % 3));
+                                // (from the third connection on there is no Maximum Packet Size any more)
                                 w.settle_check();
                                 if !w.blind {
                                     let p3 = w.start(0, Kind::Ping);
